@@ -26,3 +26,6 @@ mod test {
         builder.build().unwrap()
     });
 }
+
+#[cfg(in_toto_rs_verif)]
+pub use envelope::DSSEVersion;
